@@ -423,6 +423,14 @@ func genC19(tier string, r *rng, emit func(string)) {
 			}
 		}
 	}
+	// a rank-0 tensor used as the scalar operand of a safe operation is an operand like any other:
+	// it must come out unchanged (and stay usable) whatever the operation and the side
+	for _, op := range []string{"add", "sub", "mul", "div", "mod", "pow"} {
+		for _, side := range [][2]int{{0, 1}, {1, 0}} {
+			emit(fmt.Sprintf("prog f64 new:rm:3:5;new:rm:_:3;bin:%s:%d:%d:safe;new:rm:_:9;bin:add:0:1:safe;at:1:_", op, side[0], side[1]))
+			emit(fmt.Sprintf("prog f64 new:rm:2,2:5;new:rm:_:3;bin:%s:%d:%d:safe:method;clone:1;new:rm:_:9", op, side[0], side[1]))
+		}
+	}
 	// caller-owned axes slices: T with explicit axes followed by every way of dropping the thunk
 	for _, sh := range allShapes(4, 3) {
 		if len(sh) < 2 {
